@@ -24,7 +24,7 @@ pub fn blocks(thorough: bool) -> Vec<Block> {
             b.push(Block::new(Universe::new(&format!("U_adv({n})"), a, 2, 2, false), vec![Cfg::new(0), Cfg::new(X | E)], "{}, x+e"));
         }
         b.push(Block::new(Universe::new("U_abc3{a,b,c}", &["a", "b", "c"], 3, 4, false), vec![Cfg::new(0)], "{} (sets of <= 4 strings of length <= 3 over three letters: every union/factoring shape with a non-topological elimination order)"));
-        b.push(Block::new(Universe::new("U_ab4{a,b}", &["a", "b"], 4, 4, false), vec![Cfg::new(0)], "{}"));
+        b.push(Block::new(Universe::new("U_ab4{a,b}", &["a", "b"], 4, 5, false), vec![Cfg::new(0)], "{} (up to 5 strings: optional prefix and suffix around a core plus a string that reorders the elimination)"));
         b.push(Block::new(Universe::new("U_adv(A_cons)", A_CONS, 1, 4, false), vec![Cfg::new(0), Cfg::new(X), Cfg::new(G | E)], "{}, x, g+e"));
         b.push(Block::new(Universe::new("U_adv(A_gcm)", A_GCM, 3, 1, false), neutral.clone(), d32));
         b.push(Block::new(Universe::new("U_adv(A_gcm)", A_GCM, 2, 2, false), vec![Cfg::new(0), Cfg::new(X | E)], "{}, x+e"));
